@@ -20,6 +20,11 @@ def corpus():
         # unknown names are preserved verbatim; changes while a request is in flight are reported on the next idle
         (L.Sched(labels=["D0", "S*", "i1:" + e, "S*", N("fingerprint"), N("Player"), "D0", "S*", "D0"] + L.flush(1), note="changes during a request; unknown names"), ["fingerprint", "Player"]),
         (L.Sched(labels=["D0", "S*", N("player"), "D0", "S*", N("player"), "D0", "S*", N("player"), "D1", "D1", "D0"] + L.flush(0), note="same subsystem three times"), ["player"] * 3),
+        # names are the bytes between "changed: " and the line feed, whatever they are: carriage returns, blanks, case, non-ASCII
+        (L.Sched(labels=["D0", "S*", N("input\r"), "D0", "S*", N("player\r"), N("a\rb"), "D0", "S*", N(" mixer"), N("mixer "), N("Mixer"), "D0"] + L.flush(0), note="names with carriage returns and blanks"),
+         ["input\r", "player\r", "a\rb", " mixer", "mixer ", "Mixer"]),
+        (L.Sched(labels=["D0", N("player"), N("player"), N("mixer"), N("player"), "S*", "D0", "S*", N("x"), N("x"), "D0"] + L.flush(0), note="the same name on consecutive lines of one reply"),
+         ["player", "player", "mixer", "player", "x", "x"]),
     ] + [
         # the idle reply arrives in three pieces and the request is issued between the second and the third
         (L.Sched(labels=["D0", "S*", N("player"), f"D{k}", "D1", "c1:" + e, "D0", "S*", "D0"] + L.flush(1), note=f"idle reply cut after {k} and {k + 1} bytes, request in between"), ["player"])
@@ -44,7 +49,7 @@ def gen(ctx):
         for _ in range(rng.choice([6, 15, 40, 80])):
             r = rng.random()
             if r < 0.30:
-                nm = rng.choice(L.SUBSYSTEMS)
+                nm = rng.choice(L.SUBSYSTEMS) if rng.random() < 0.85 else rng.choice(["input\r", "a\rb", "player\r", " mixer", "Player", "x", "é", "stored_playlist "])
                 names.append(nm)
                 labels.append(N(nm))
             elif r < 0.45:
